@@ -13,7 +13,8 @@
              git: "new" for every path that has an index entry (files only), "no" otherwise; directories are versioned
                   implicitly while a versioned file lives below them
      basis   the committed tree (bzr: may hold empty directories; git: files only)
-     last    outcome of the last call: "ok" | "rejected" (an exception was raised)
+     last    outcome of the last call: "ok" | "rejected:<rule>" (an exception is raised; <rule> names the rule of this
+             model that forbids the call - it classifies the pre-state in violation signatures)
      obs     the OBSERVABLE PROJECTION of the state = what C09 compares with the real tree after every call:
              obs.view    versioned path -> what the tree reports for it (disk kind / "missing", content, exec bit)
              obs.changes normalised iter_changes(basis)
@@ -94,7 +95,7 @@ ValidBasis(b) == IF Flavour = "bzr" THEN ValidDisk(b)
                  ELSE \A p \in Paths : /\ b[p].k \in {"none", "file"}
                                         /\ b[p].k = "file" /\ Par(p) # "" => b[Par(p)].k = "none"
 TypeOK == /\ disk \in [Paths -> Entries] /\ basis \in [Paths -> Entries]
-          /\ ver \in [Paths -> {"no", "new"} \cup Paths] /\ last \in {"ok", "rejected"}
+          /\ ver \in [Paths -> {"no", "new"} \cup Paths] /\ last \in STRING
 ValidTree == ValidDisk(disk) /\ ValidVer(ver) /\ ValidBasis(basis)
 \* an id taken from the basis really is a basis entry
 IdsFromBasis == \A p \in Paths : ver[p] \notin {"no", "new"} => basis[ver[p]].k # "none"
@@ -106,8 +107,7 @@ ObsConsistent == obs = Obs(disk, ver, basis)
 
 (* ------------------------------------------------------------------ results *)
 Res(dk, v, b, l) == [disk |-> dk, ver |-> v, basis |-> b, last |-> l]
-Rej == Res(disk, ver, basis, "rejected")
-RejDisk(dk) == Res(dk, ver, basis, "rejected")         \* failed half-way: file system touched, nothing versioned
+Rej(rule) == Res(disk, ver, basis, rule)                \* rule = "rejected:<the rule of this model that forbids the call>"
 Ok(dk, v) == Res(dk, v, basis, "ok")
 Step(r) == /\ disk' = r.disk /\ ver' = r.ver /\ basis' = r.basis /\ last' = r.last
            /\ obs' = Obs(r.disk, r.ver, r.basis)
@@ -126,15 +126,15 @@ Erase(f, p, blank) == [q \in Paths |-> IF q \in Under(p) THEN blank ELSE f[q]]
 
 (* ------------------------------------------------------------------ add / mkdir *)
 AddRes(p) ==
-    IF ~Has(disk, p) THEN Rej                                                    \* NoSuchFile
+    IF ~Has(disk, p) THEN Rej("rejected:no-such-file")
     ELSE IF Flavour = "git" THEN (IF disk[p].k = "file" THEN Ok(disk, [ver EXCEPT ![p] = "new"]) ELSE Ok(disk, ver))
     ELSE IF ver[p] # "no" THEN Ok(disk, ver)                                     \* already versioned: no-op
-    ELSE IF ~VerB(ver, Par(p)) THEN Rej                                          \* parent not versioned
+    ELSE IF ~VerB(ver, Par(p)) THEN Rej("rejected:parent-not-versioned")
     ELSE Ok(disk, [ver EXCEPT ![p] = "new"])
 Add(p) == /\ p \in Paths /\ Step(AddRes(p))
 
 MkdirRes(p) ==
-    IF Has(disk, p) THEN Rej                                                     \* FileExists
+    IF Has(disk, p) THEN Rej("rejected:file-exists")
     ELSE LET dk == [disk EXCEPT ![p] = DIR] IN
          IF Flavour = "git" THEN Ok(dk, ver) ELSE Ok(dk, [ver EXCEPT ![p] = "new"])
 Mkdir(p) == /\ p \in DirNames /\ Step(MkdirRes(p))
@@ -156,33 +156,34 @@ BzrDoMove(src, dst, id) ==
     IN Ok(IF hs THEN MoveTree(disk, src, dst, NONE) ELSE disk, MoveTree(v0, src, dst, "no"))
 BzrRenameRes(src, dst) ==
     LET id == BzrFromId(src) IN
-    IF id = "no" THEN Rej                                                        \* not versioned
-    ELSE IF ver[src] = "no" /\ \E q \in Paths : ver[q] = id THEN Rej             \* its identity lives elsewhere
-    ELSE IF ver[src] = "no" /\ ~(Par(src) = "" \/ \E q \in Paths : ver[q] = Par(src)) THEN Rej  \* basis parent gone
-    ELSE IF ver[dst] # "no" THEN Rej                                             \* target versioned
-    ELSE IF Has(disk, src) = Has(disk, dst) THEN Rej                             \* both exist / neither exists
-    ELSE IF ~VerB(ver, Par(dst)) THEN Rej                                        \* target directory not versioned
+    IF id = "no" THEN Rej("rejected:source-not-versioned")
+    ELSE IF ver[src] = "no" /\ \E q \in Paths : ver[q] = id THEN Rej("rejected:source-identity-lives-elsewhere")
+    ELSE IF ver[src] = "no" /\ ~(Par(src) = "" \/ \E q \in Paths : ver[q] = Par(src)) THEN Rej("rejected:basis-parent-gone")
+    ELSE IF ver[dst] # "no" THEN Rej("rejected:target-versioned")
+    ELSE IF Has(disk, src) = Has(disk, dst) THEN Rej("rejected:both-or-neither-exist")
+    ELSE IF ~VerB(ver, Par(dst)) THEN Rej("rejected:target-directory-not-versioned")
     ELSE BzrDoMove(src, dst, id)
 BzrMoveRes(src, dir) ==
     LET dst == Join(dir, Name(src)) IN
-    IF ~VerB(ver, dir) \/ ~IsDir(disk, dir) THEN Rej
-    ELSE IF ver[src] = "no" \/ ver[dst] # "no" \/ src = dst THEN Rej
-    ELSE IF Has(disk, src) = Has(disk, dst) THEN Rej
+    IF ~VerB(ver, dir) \/ ~IsDir(disk, dir) THEN Rej("rejected:target-directory-not-versioned")
+    ELSE IF ver[src] = "no" THEN Rej("rejected:source-not-versioned")
+    ELSE IF ver[dst] # "no" \/ src = dst THEN Rej("rejected:target-versioned")
+    ELSE IF Has(disk, src) = Has(disk, dst) THEN Rej("rejected:both-or-neither-exist")
     ELSE BzrDoMove(src, dst, ver[src])
 
 GitRenameRes(src, dst) ==
     LET hs == Has(disk, src)
         hd == Has(disk, dst)
-    IN IF VerG(ver, dst) THEN Rej                                                \* target versioned
-       ELSE IF ~hs THEN Rej                                                      \* (source neither on disk nor tracked, or
-                                                                                 \*  tracked but missing: not reachable)
-       ELSE IF ~VerG(ver, src) /\ disk[src].k # "dir" THEN Rej                   \* not versioned
-       ELSE IF hd THEN Rej                                                       \* files exist
-       ELSE IF ~IsDir(disk, Par(dst)) THEN Rej
+    IN IF VerG(ver, dst) THEN Rej("rejected:target-versioned")
+       ELSE IF ~hs THEN Rej("rejected:source-missing")                          \* (tracked but missing: not reachable)
+       ELSE IF ~VerG(ver, src) /\ disk[src].k # "dir" THEN Rej("rejected:source-not-versioned")
+       ELSE IF hd THEN Rej("rejected:both-or-neither-exist")
+       ELSE IF ~IsDir(disk, Par(dst)) THEN Rej("rejected:target-directory-missing")
        ELSE Ok(MoveTree(disk, src, dst, NONE), MoveTree(ver, src, dst, "no"))
 GitMoveRes(src, dir) ==
     LET dst == Join(dir, Name(src)) IN
-    IF ~IsDir(disk, dir) THEN Rej ELSE IF src = dst THEN Rej ELSE GitRenameRes(src, dst)
+    IF ~IsDir(disk, dir) THEN Rej("rejected:target-directory-missing")
+    ELSE IF src = dst THEN Rej("rejected:target-versioned") ELSE GitRenameRes(src, dst)
 
 Rename(src, dst) == /\ Movable(src, dst)
                     /\ Step(IF Flavour = "bzr" THEN BzrRenameRes(src, dst) ELSE GitRenameRes(src, dst))
@@ -249,12 +250,13 @@ Spec == Init /\ [][Next]_vars
 
 (* ------------------------------------------------------------------ properties of the model (checked by TLC) *)
 \* a rejected call leaves the versioned projection alone
-RejectedIsNoop == [][last' = "rejected" => obs' = obs]_vars
+Rejected(l) == l # "ok"
+RejectedIsNoop == [][Rejected(last') => obs' = obs]_vars
 \* directly after commit / revert the tree has no changes against its basis
 CommitIsClean == [][Commit => obs'.changes = {}]_vars
 RevertIsClean == [][Revert => obs'.changes = {} /\ \A p \in Paths : basis[p].k # "none" => disk'[p] = basis[p]]_vars
 \* anti-vacuity witnesses
 WitnessRenameReported == ~(\E r \in obs.changes : r.o # "" /\ r.n # "" /\ r.o # r.n)
-WitnessRejected == last # "rejected"
+WitnessRejected == ~Rejected(last)
 WitnessKindChange == ~(\E r \in obs.changes : r.ko = "file" /\ r.kn = "dir")
 =============================================================================
